@@ -59,9 +59,18 @@ class quiet:
         return False
 
 
-def _init():
+def _init(snap_root, path):
+    """Worker start-up (spawned, not forked: forked children of this interpreter run 2-3x slower
+    on this VM because of copy-on-write page faults)."""
+    sys.path[:] = path
+    from . import fastarena
+
+    fastarena.install()
     silence()
     sys.setrecursionlimit(10000)
+    from . import snapshot
+
+    snapshot.activate(snap_root, quiet_tables=False)
 
 
 def _call(payload):
@@ -69,16 +78,38 @@ def _call(payload):
     return func(arg)
 
 
+_POOL = None
+
+
+def get_pool():
+    global _POOL
+    if _POOL is None:
+        import atexit
+
+        from . import snapshot
+
+        ctx = mp.get_context("spawn")
+        _POOL = ctx.Pool(NPROC, initializer=_init, initargs=(snapshot.root(), list(sys.path)))
+        atexit.register(close_pool)
+    return _POOL
+
+
+def close_pool():
+    global _POOL
+    if _POOL is not None:
+        _POOL.terminate()
+        _POOL.join()
+        _POOL = None
+
+
 def pmap(func, args, jobs=None, chunksize=1):
-    """Ordered map of a module-level function over args in forked workers."""
+    """Ordered map of a module-level function over args in the worker pool."""
     args = list(args)
     jobs = jobs or NPROC
     if jobs <= 1 or len(args) <= 1:
         with quiet():
             return [func(a) for a in args]
-    ctx = mp.get_context("fork")
-    with ctx.Pool(min(jobs, len(args)), initializer=_init) as p:
-        return p.map(_call, [(func, a) for a in args], chunksize=chunksize)
+    return get_pool().map(_call, [(func, a) for a in args], chunksize=chunksize)
 
 
 def shards(n_items_hint=None, per_worker=4):
